@@ -183,6 +183,77 @@ func scenarioHandover(self, work string, holder string) scenarioResult {
 	return res
 }
 
+// scenarioHandover3: three parties.  This process holds the lock (Mutex or Edit); B (another
+// process) is already queued on it; this process releases, B acquires and keeps it; then a
+// newcomer C asks for the lock on the same PATH.  C must not get it before B has released.
+// (The lock lives on the inode: a release that unlinks or replaces the file hands B the orphaned
+// inode and lets C lock a fresh one — two holders of one path.)  Correct code can never let C
+// finish early, so the only waits that matter are capped waits for events that must happen.
+func scenarioHandover3(self, work string, kind string) scenarioResult {
+	res := scenarioResult{name: "handover3-" + kind}
+	path := filepath.Join(work, "handover3-"+kind)
+	os.Remove(path)
+	os.WriteFile(path, nil, 0o666)
+	var release func()
+	if kind == "mutex" {
+		unlock, err := lockedfile.MutexAt(path).Lock()
+		if err != nil {
+			res.setup = err.Error()
+			return res
+		}
+		release = unlock
+	} else {
+		f, err := lockedfile.Edit(path)
+		if err != nil {
+			res.setup = err.Error()
+			return res
+		}
+		release = func() { f.Close() }
+	}
+	bc, brd, bin, err := startHelper(self, nil, "hold", path, kind)
+	if err != nil {
+		release()
+		res.setup = err.Error()
+		return res
+	}
+	defer func() { bin.Close(); bc.Process.Kill(); bc.Wait() }()
+	time.Sleep(150 * time.Millisecond) // B has opened the file and is blocked in flock by now
+	release()
+	l, ok := waitLine(brd, capWait)
+	if !ok || !strings.HasPrefix(l, "LOCKED") {
+		res.viol = "waiter-never-acquired"
+		res.detail = fmt.Sprintf("the queued %s waiter did not acquire within %v after the release (%q)", kind, capWait, l)
+		return res
+	}
+	// B holds it now.  A newcomer on the same path:
+	cc, crd, cin, err := startHelper(self, nil, "lockwait", path, kind, "-")
+	if err != nil {
+		res.setup = err.Error()
+		return res
+	}
+	defer func() { cin.Close(); cc.Process.Kill(); cc.Wait() }()
+	// give C time to run into the lock (or, wrongly, through it), then let B release; C's own
+	// timestamps say whether it returned before B was told to release
+	time.Sleep(300 * time.Millisecond)
+	tRel := monoNow()
+	bin.Close()
+	l, ok = waitLine(crd, capWait)
+	if !ok || !strings.HasPrefix(l, "DONE ok") {
+		res.viol = "newcomer-never-finished"
+		res.detail = fmt.Sprintf("the newcomer did not acquire within %v after the second holder released at %d (%q)", capWait, tRel, l)
+		return res
+	}
+	if fs := strings.Fields(l); len(fs) == 4 {
+		t0, _ := strconv.ParseInt(fs[2], 10, 64)
+		t1, _ := strconv.ParseInt(fs[3], 10, 64)
+		if t1 < tRel && t0 < tRel-int64(60*time.Millisecond) {
+			res.viol = "two-holders-of-one-path"
+			res.detail = fmt.Sprintf("a queued %s waiter acquired the lock after a release and held it until %d; a newcomer's %s call on the same path started at %d and returned at %d, while it was held: two holders of one path", kind, tRel, kind, t0, t1)
+		}
+	}
+	return res
+}
+
 func head(b []byte) []byte {
 	if len(b) > 40 {
 		return b[:40]
